@@ -78,6 +78,11 @@ func (p *publisher) publishUpdates(reqs requests) {
 	batchedUpdates := make(map[uint64]*pb.KVList)
 	for _, req := range reqs {
 		for _, e := range req.Entries {
+			// The end-of-transaction marker is bookkeeping of the commit, not a write: it must
+			// not reach subscribers whose pattern happens to match its internal key.
+			if e.meta&bitFinTxn != 0 {
+				continue
+			}
 			// Match patterns against the user key. e.Key carries the 8-byte timestamp suffix,
 			// whose leading bytes are 0xff for every realistic version, so a pattern longer
 			// than the user key ("a\xff") would otherwise match the key "a".
